@@ -195,6 +195,7 @@ func runC05(c *Ctx) {
 	r.Floor("single-conversion", n, 12, "Location sinks in the tokenizer")
 	runC05Start(c, conv)
 	runC05Lookahead(c)
+	c05Lockstep(c, c.P)
 	// one-based
 	be := newBoundsEngine(p)
 	for fn := range conv {
